@@ -97,11 +97,26 @@ func (c *Ctx) onlyFromTeardownAfterClear(fn *ssa.Function) (bool, string) {
 			}
 			continue
 		}
-		if !SetDominates(par, func(in ssa.Instruction) bool { return c.isFlagStore(in, false) }, cs) {
+		if !SetDominates(par, func(in ssa.Instruction) bool { return c.isFlagClear(in) }, cs) {
 			return false, "started at " + c.InstrPos(cs) + " before the connected flag is cleared"
 		}
 	}
 	return true, "only started from the teardown after connected=false"
+}
+
+// isFlagClear: the connected flag becomes false here: a store of false, or a
+// call of the trivial helper the teardown delegates that store to.
+func (c *Ctx) isFlagClear(in ssa.Instruction) bool {
+	if c.isFlagStore(in, false) {
+		return true
+	}
+	if c.A.FlagClearer != nil {
+		if cc := callOf(in); cc != nil && !cc.IsInvoke() && cc.StaticCallee() == c.A.FlagClearer {
+			_, isGo := in.(*ssa.Go)
+			return !isGo
+		}
+	}
+	return false
 }
 
 // isFlagStore: store of the constant val to the connected flag.
@@ -231,7 +246,7 @@ func runC03(c *Ctx) {
 		used := valueUsed(v)
 		ok, why := c.onlyFromTeardownAfterClear(fn)
 		if fn == a.TeardownCore {
-			ok = SetDominates(fn, func(in ssa.Instruction) bool { return c.isFlagStore(in, false) }, op.In)
+			ok = SetDominates(fn, func(in ssa.Instruction) bool { return c.isFlagClear(in) }, op.In)
 			why = "in the teardown itself after connected=false"
 		}
 		if used {
@@ -482,9 +497,27 @@ func (c *Ctx) connDispatchRule(rule string, consumer *ssa.Function, recvs []Chan
 		}
 		ok := fn == consumer && kindName(cs) == "call"
 		why := kindName(cs) + " in " + c.FuncKey(fn)
+		var arg ssa.Value
+		if ok {
+			arg = cs.Common().Args[1]
+		}
+		if !ok && kindName(cs) == "call" {
+			// a per-line helper of the consumer: unexported, called (plainly) only from the consumer, dispatching
+			// the line it is given - then the line is what the consumer passes
+			if pr, isP := cs.Common().Args[1].(*ssa.Parameter); isP && fn.Object() != nil && !fn.Object().Exported() && !addrTaken(fn) {
+				sites := c.staticCallers(fn)
+				if len(sites) == 1 && sites[0].Parent() == consumer && kindName(sites[0]) == "call" {
+					for i, q := range fn.Params {
+						if q == pr && i < len(sites[0].Common().Args) {
+							ok, arg = true, sites[0].Common().Args[i]
+							why = "plain call in the consumer's per-line helper " + c.FuncKey(fn)
+						}
+					}
+				}
+			}
+		}
 		if ok {
 			// argument is the received value
-			arg := cs.Common().Args[1]
 			okArg := false
 			for _, op := range recvs {
 				if op.In.Parent() == consumer && recvValue(op) != nil {
